@@ -60,6 +60,7 @@ class AwesomeyamlLoader(yaml.Loader):
             return super().construct_document(node)
         finally:
             self.__dict__.pop('_aliased_nodes', None)
+            self.__dict__.pop('_first_nodes', None)
 
     @staticmethod
     def _make_generator(value, update_fn):
@@ -83,6 +84,14 @@ class AwesomeyamlLoader(yaml.Loader):
             return value
 
         aynode = self._convert(value, node)
+
+        if isinstance(aynode, ConfigNode):
+            first = self.__dict__.setdefault('_first_nodes', {})
+            if node not in first:
+                first[node] = aynode
+            elif first[node] is not aynode and not first[node].ayns.safe:
+                # made again, for an alias of something unsafe: content does not become safe by being referred to from another place
+                aynode._implicit_safe = False
 
         if value is not aynode and len(self.state_generators) > queued:
             # pyyaml constructs untagged containers lazily (unless "deep"): the value is still empty and a generator, queued in
